@@ -1,14 +1,18 @@
 (* Glue/C15_glue.v — entry point of the extracted runner for C15.
-   run (VL [VN 1; cfg; oracle])  -> VL [VL events; VN result]       SSHSession.connect
+   run (VL [VN 1; cfg; oracle])  -> VL [VL events; VN result; detail]       SSHSession.connect
+     detail = VL [VN sel; VN ktype; VN blob] (.host / .fingerprint of SSHUnknownHostError) | VL []
      cfg    = VL [VN verify; VL [VL [VN sel; VN ktype; VN blob]...]; pin; VN user_cb; VN profile_cb;
                   VN key_files; VN allow_agent; VN look_for_keys; VN password; VL [VB subsystem...]; VN exec_fallback]
        sel: 0 "host", 1 "[host]:port", 2 other;  pin: VL [] absent | VL [VN 0] unusable | VL [VN ktype; VN blob]
-     oracle = VL [VN kex_ok; VL [VN ktype; VN blob]; VN cb; VL loads; VN agent_keys; VN default_keys;
+     oracle = VL [VN kex_ok; VL [VN ktype; VN blob]; cb; VL loads; VN agent_keys; VN default_keys;
                   VL auths; VL opens; VL subs; VN hello_ok]
-   run (VL [VN 2; tcfg; toracle]) -> VL [VL events; VN result]      TLSSession.connect
+       cb (the caller's callback as a function of (host name, key whose fingerprint it is shown)):
+          VL [VN 0; VN b] constant | VL [VN 1; key] only that fingerprint | VL [VN 2; VN sel] only that host name
+          | VL [VN 3; VN sel; key] both
+   run (VL [VN 2; tcfg; toracle]) -> VL [VL events; VN result; VL []]      TLSSession.connect
      tcfg   = VL [VN host; VN certfile; VN protocol; VN check_hostname; VN ca_given; VN server_hostname]
      toracle= VL [VN load_cert; VN load_ca; VN connect_ok; VN handshake_ok; VN hello_ok]   (load: 0 ok, 1 SSLError, 2 IOError)
-   events: [0] StartClient [1] CallbackAsked [2 how sel] HostKeyAccepted (how 0 known_hosts,1 pinned,2 callback)
+   events: [0] StartClient [1 sel ktype blob] CallbackAsked (host name, key) [2 how sel] HostKeyAccepted (how 0 known_hosts,1 pinned,2 callback)
            [3 kind idx ok] AuthAttempt (kind 0 key file,1 agent,2 default key,3 password) [4] OpenSession
            [5 name] InvokeSubsystem [6] ExecFallback [7] SendHello [8] TlsLoadCert [9] TlsLoadCA [10] TlsConnect
            [11 vr ch sh] Handshake
@@ -27,13 +31,22 @@ Definition dec_entry (v : val) : kh_entry :=
 Definition dec_key (v : val) : key := match v with VL [VN t; VN b] => (t, b) | _ => (0, 0) end.
 Definition dec_pin (v : val) : pin :=
   match v with VL [] => PinAbsent | VL [VN t; VN b] => PinKey (t, b) | _ => PinBad end.
+Definition dec_cb (v : val) : hsel -> key -> bool :=
+  cb_of_policy
+    match v with
+    | VL [VN 1; k] => CbOnlyKey (dec_key k)
+    | VL [VN 2; VN s] => CbOnlyHost (dec_sel s)
+    | VL [VN 3; VN s; k] => CbHostKey (dec_sel s) (dec_key k)
+    | VL [VN 0; b] => CbConst (unB b)
+    | _ => CbConst false
+    end.
 Definition dec_load (n : N) : load_res := if N.eqb n 0 then LOk else if N.eqb n 1 then LSSLError else LIOError.
 
 Definition sel_code (s : hsel) : N := match s with HHost => 0 | HHostPort => 1 | HOther => 2 end.
 Definition enc_event (e : event) : val :=
   match e with
   | StartClient => VL [VN 0]
-  | CallbackAsked => VL [VN 1]
+  | CallbackAsked s k => VL [VN 1; VN (sel_code s); VN (fst k); VN (snd k)]
   | HostKeyAccepted (ByKnownHosts s) => VL [VN 2; VN 0; VN (sel_code s)]
   | HostKeyAccepted ByPinned => VL [VN 2; VN 1; VN 0]
   | HostKeyAccepted ByCallback => VL [VN 2; VN 2; VN 0]
@@ -51,9 +64,12 @@ Definition enc_event (e : event) : val :=
   | Handshake a b c => VL [VN 11; vbool a; vbool b; vbool c]
   end.
 Definition enc_result (r : result) : val :=
-  VN (match r with Ok => 0 | Exn SSHUnknownHost => 1 | Exn Authentication => 2 | Exn SSHError => 3
+  VN (match r with Ok => 0 | Exn (SSHUnknownHost _ _) => 1 | Exn Authentication => 2 | Exn SSHError => 3
                  | Exn TLSErr => 4 | Exn Other => 5 end).
-Definition enc_out (tr : trace * result) : val := VL [VL (map enc_event (fst tr)); enc_result (snd tr)].
+Definition enc_detail (r : result) : val :=
+  match r with Exn (SSHUnknownHost s k) => VL [VN (sel_code s); VN (fst k); VN (snd k)] | _ => VL [] end.
+Definition enc_out (tr : trace * result) : val :=
+  VL [VL (map enc_event (fst tr)); enc_result (snd tr); enc_detail (snd tr)].
 
 Definition run (v : val) : val :=
   match v with
@@ -64,7 +80,7 @@ Definition run (v : val) : val :=
            c_user_cb := unB ucb; c_profile_cb := unB pcb; c_key_files := un_nat kf;
            c_allow_agent := unB ag; c_look_for_keys := unB lk; c_password := unB pw;
            c_subsystems := map unVB (unL subs); c_exec_fallback := unB fb |}
-        {| o_kex_ok := unB kex; o_server_key := dec_key sk; o_cb := unB cb; o_loads := map unB (unL loads);
+        {| o_kex_ok := unB kex; o_server_key := dec_key sk; o_cb := dec_cb cb; o_loads := map unB (unL loads);
            o_agent_keys := un_nat nag; o_default_keys := un_nat ndk; o_auths := map unB (unL auths);
            o_opens := map unB (unL opens); o_subs := map unB (unL sbs); o_hello_ok := unB hk |})
   | VL [VN 2; VL [h; cf; pr; ch; ca; sh]; VL [lc; lca; cn; hs; hk]] =>
